@@ -667,3 +667,11 @@ CHECKS["C10"]["text"] += (
     " The content of an output that exists after a fault is every stored "
     "scalar feature, compared with the fault-free output; up to 200 "
     "operations every fault point is taken in the quick tier too.")
+CHECKS["C12"]["text"] += (
+    " What a density estimator reports for a position must not depend on "
+    "how many other positions are asked for in the same call (1, 2 and 3 "
+    "positions, every estimator).")
+CHECKS["C15"]["text"] += (
+    " After a file has been loaded, filters registered later (without "
+    "requested identifier, and by loading the file again) must take other "
+    "identifiers: every identifier keeps resolving to its own filter.")
